@@ -175,7 +175,8 @@ TabsResizes(t) == {<<w, 1>> : w \in {1, 7, 8, 9, 15, 16, 17, 24, 25, 32} \ {t.co
 ReflowAlphabet(t) ==
      {F1("Print", c) : c \in {97, 32}} \cup {F0("Cr"), F0("Lf"), F1("El", 0), F1("El", 1), F1("Ech", 1), F1("Dch", 1)}
   \cup {F1("Cuu", 1), F1("Cuf", 1), F1("Cub", 1), FS("Sgr", <<<<48, 4>>>>), FS("Sgr", <<<<0, 0>>>>)}
-ReflowSizes == {<<1, 1>>, <<2, 2>>, <<3, 2>>, <<4, 2>>}
+  \cup {FS("Decset", <<6>>), F2("Decstbm", 2, t.rows)}
+ReflowSizes == {<<1, 1>>, <<2, 2>>, <<3, 2>>, <<4, 2>>, <<2, 3>>}
 ReflowFills == {<<>>, <<97, 98, 99, 100, 101>>, <<97, 98, 32, 32, 32, 99, 13, 10, 100>>, <<97, 13, 10, 13, 10, 98, 99, 100>>}
 ReflowResizes(t) == {<<c, r>> \in {<<1, 1>>, <<1, 3>>, <<2, 2>>, <<3, 1>>, <<3, 3>>, <<5, 2>>} : <<c, r>> # <<t.cols, t.rows>>}
 =============================================================================
